@@ -14,6 +14,7 @@
                   the committed table whose own searchable text satisfies the parsed query (corollary of C10)
 -/
 import MvProps.C28Lemmas
+import MvProps.C15
 import MvProps.C09
 namespace Mv.Persist
 open Mv
@@ -49,23 +50,27 @@ theorem C28_timeline_noindex (frames : List Timeline.Frame) (hok : TimeOk frames
     timelineFile frames file none q
       = timelineFile frames (pre ++ timeTrack frames ++ post) (some ⟨pre.length, (timeTrack frames).length⟩) q := by
   rw [C28_timeline frames hok pre post q]
-  unfold timelineFile timelineMem
+  show Except.ok (Timeline.buildTimelineFixed frames none q) = Except.ok (timelineMem frames q)
+  unfold timelineMem
   rw [Timeline.C15_index_independent frames q hd]
 
 def sampleFrames : List Timeline.Frame :=
   [⟨0, 100, .document, .active⟩, ⟨1, 90, .document, .deleted⟩, ⟨2, 100, .image, .active⟩, ⟨3, -5, .document, .active⟩]
 
-/-- non-vacuity: a table with a deleted frame, an extracted image, equal and negative timestamps -/
-example : TimeOk sampleFrames ∧
+theorem sampleFrames_ok : TimeOk sampleFrames := by
+  refine ⟨?_, by decide⟩
+  intro f hf
+  simp only [sampleFrames, List.mem_cons, List.not_mem_nil, or_false] at hf
+  rcases hf with rfl | rfl | rfl | rfl <;> decide
+
+/-- non-vacuity: a table with a deleted frame, an extracted image, equal and negative timestamps; the
+    track sits between other bytes of the file -/
+example :
     timelineFile sampleFrames ([7, 7, 7] ++ timeTrack sampleFrames ++ [9]) (some ⟨3, (timeTrack sampleFrames).length⟩)
       { limit := none, since := none, «until» := none, reverse := false }
       = .ok [⟨-5, 3⟩, ⟨100, 0⟩, ⟨100, 2⟩] := by
-  constructor
-  · refine ⟨?_, by decide⟩
-    intro f hf
-    simp only [sampleFrames, List.mem_cons, List.not_mem_nil, or_false] at hf
-    rcases hf with rfl | rfl | rfl | rfl <;> decide
-  · decide
+  rw [show (3 : Nat) = ([7, 7, 7] : Bytes).length from rfl, C28_timeline sampleFrames sampleFrames_ok]
+  decide
 
 /-! ## vector search -/
 
@@ -73,23 +78,44 @@ example : TimeOk sampleFrames ∧
 def rebuiltDocs (m : VecMem) (active : Nat → Bool) (newDocs : List (Vec.Doc Nat)) : List (Vec.Doc Nat) :=
   ((m.index.getD []).filter fun d => active d.frameId) ++ newDocs
 
+theorem rebuildVec_enabled (m : VecMem) (active : Nat → Bool) (newDocs : List (Vec.Doc Nat)) (he : m.enabled = true)
+    (hok : VecOk (rebuiltDocs m active newDocs)) :
+    rebuildVec m active newDocs =
+      some ({ enabled := true, manDim := some (dimOf (rebuiltDocs m active newDocs)), index := some (rebuiltDocs m active newDocs) },
+            { man := some (dimOf (rebuiltDocs m active newDocs), Vec.encodeDocs (rebuiltDocs m active newDocs)) }) := by
+  have hrt := Vec.C13_codec_roundtrip (rebuiltDocs m active newDocs) hok.1 hok.2
+  unfold rebuiltDocs at hrt ⊢
+  unfold rebuildVec buildVecArtifact
+  simp only [he, Bool.not_true, Bool.false_eq_true, if_false, hrt]
+
+theorem rebuildVec_disabled (m : VecMem) (active : Nat → Bool) (newDocs : List (Vec.Doc Nat)) (he : m.enabled = false) :
+    rebuildVec m active newDocs = some ({ m with manDim := none, index := none }, { man := none }) := by
+  unfold rebuildVec buildVecArtifact
+  simp only [he, Bool.not_false, if_true]
+
+theorem openVec_encoded (dim : Nat) (docs : List (Vec.Doc Nat)) (hok : VecOk docs) :
+    openVec { man := some (dim, Vec.encodeDocs docs) } = { enabled := true, manDim := some dim, index := some docs } := by
+  have hrt := Vec.C13_codec_roundtrip docs hok.1 hok.2
+  simp only [openVec, encodeDocs_ne_nil, Bool.false_eq_true, if_false, hrt]
+
 /-- a handle that opens the committed file holds exactly the state of the handle that committed -/
 theorem openVec_rebuild (m m' : VecMem) (active : Nat → Bool) (newDocs : List (Vec.Doc Nat)) (d : VecDisk)
     (hok : VecOk (rebuiltDocs m active newDocs)) (h : rebuildVec m active newDocs = some (m', d)) :
-    openVec d = m' ∧ (m.enabled = true → m'.index = some (rebuiltDocs m active newDocs)) := by
-  unfold rebuildVec buildVecArtifact at h
+    openVec d = m' := by
   by_cases he : m.enabled = true
-  · have hrt := Vec.C13_codec_roundtrip (rebuiltDocs m active newDocs) hok.1 hok.2
-    unfold rebuiltDocs at hrt
-    simp only [he, Bool.not_true, Bool.false_eq_true, if_false, hrt, Option.some.injEq, Prod.mk.injEq] at h
+  · rw [rebuildVec_enabled m active newDocs he hok] at h
+    simp only [Option.some.injEq, Prod.mk.injEq] at h
     obtain ⟨rfl, rfl⟩ := h
-    refine ⟨?_, fun _ => rfl⟩
-    simp only [openVec, encodeDocs_ne_nil, Bool.false_eq_true, if_false, hrt]
+    exact openVec_encoded _ _ hok
   · have he' : m.enabled = false := by simpa using he
-    simp only [he', Bool.not_false, if_true, Option.some.injEq, Prod.mk.injEq] at h
+    rw [rebuildVec_disabled m active newDocs he'] at h
+    simp only [Option.some.injEq, Prod.mk.injEq] at h
     obtain ⟨rfl, rfl⟩ := h
-    refine ⟨?_, fun c => by simp at c⟩
-    simp only [openVec, he']
+    cases m with
+    | mk en md ix =>
+      simp only [] at he'
+      subst he'
+      rfl
 
 variable {F D : Type}
 
@@ -102,7 +128,7 @@ theorem C28_vec (ofBits : Nat → F) (dist : List F → List F → D) (pcmp : D 
     (hok : VecOk (rebuiltDocs m active newDocs)) (h : rebuildVec m active newDocs = some (m', d))
     (q : List F) (k : Nat) :
     searchVecH ofBits dist pcmp isNan (openVec d) d q k = searchVecH ofBits dist pcmp isNan m' d q k := by
-  rw [(openVec_rebuild m m' active newDocs d hok h).1]
+  rw [openVec_rebuild m m' active newDocs d hok h]
 
 /-- **C28_vec_mem** — and that answer is the search over the documents themselves, as if they had
     never been serialised (the committing handle's own index is already `decode(bytes)`). -/
@@ -114,15 +140,10 @@ theorem C28_vec_mem (ofBits : Nat → F) (dist : List F → List F → D) (pcmp 
       Vec.searchVec dist pcmp isNan
         { vecEnabled := true, effectiveDim := (some (dimOf (rebuiltDocs m active newDocs))).filter (· > 0),
           index := some (view ofBits (rebuiltDocs m active newDocs)) } q k := by
-  have ho := openVec_rebuild m m' active newDocs d hok h
-  rw [ho.1]
-  have hi := ho.2 he
-  unfold rebuildVec buildVecArtifact at h
-  have hrt := Vec.C13_codec_roundtrip (rebuiltDocs m active newDocs) hok.1 hok.2
-  unfold rebuiltDocs at hrt
-  simp only [he, Bool.not_true, Bool.false_eq_true, if_false, hrt, Option.some.injEq, Prod.mk.injEq] at h
+  rw [openVec_rebuild m m' active newDocs d hok h]
+  rw [rebuildVec_enabled m active newDocs he hok] at h
+  simp only [Option.some.injEq, Prod.mk.injEq] at h
   obtain ⟨rfl, rfl⟩ := h
-  simp only [searchVecH, ensureVec, Option.map_some]
   rfl
 
 /-- **C28_vec_doctor** — with the doctor repair (`keeps = true`): whatever rebuilds are asked for, the
@@ -135,42 +156,44 @@ theorem C28_vec_doctor (rv : Bool) (m m' : VecMem) (active : Nat → Bool) (newD
     (hact : ∀ x ∈ rebuiltDocs m active newDocs, active x.frameId = true)
     (hen : rv = true → m.enabled = true) :
     doctorVec true rv active d = some d := by
-  have ho := openVec_rebuild m m' active newDocs d hok h
   by_cases he : m.enabled = true
-  · have hi := ho.2 he
-    have hrt := Vec.C13_codec_roundtrip (rebuiltDocs m active newDocs) hok.1 hok.2
-    have hfil : (rebuiltDocs m active newDocs).filter (fun x => active x.frameId) = rebuiltDocs m active newDocs :=
-      List.filter_eq_self.mpr hact
-    unfold rebuildVec buildVecArtifact at h
-    have hrt' := hrt
-    unfold rebuiltDocs at hrt'
-    simp only [he, Bool.not_true, Bool.false_eq_true, if_false, hrt', Option.some.injEq, Prod.mk.injEq] at h
+  · rw [rebuildVec_enabled m active newDocs he hok] at h
+    simp only [Option.some.injEq, Prod.mk.injEq] at h
     obtain ⟨rfl, rfl⟩ := h
-    have hopen : openVec { man := some (dimOf (rebuiltDocs m active newDocs), Vec.encodeDocs (rebuiltDocs m active newDocs)) }
-        = { enabled := true, manDim := some (dimOf (rebuiltDocs m active newDocs)), index := some (rebuiltDocs m active newDocs) } := by
-      simp only [openVec, encodeDocs_ne_nil, Bool.false_eq_true, if_false, hrt]
+    generalize hdocs : rebuiltDocs m active newDocs = docs at hok hact
+    have hfil : docs.filter (fun x => active x.frameId) = docs := List.filter_eq_self.mpr hact
+    have hopen := openVec_encoded (dimOf docs) docs hok
+    -- the handle `rebuild_indexes` runs on, for either value of `rv`, holds `docs` and has vectors enabled
+    have key : ∀ md : Option Nat,
+        rebuildVec { enabled := true, manDim := md, index := some docs } active [] =
+          some ({ enabled := true, manDim := some (dimOf docs), index := some docs },
+                { man := some (dimOf docs, Vec.encodeDocs docs) }) := by
+      intro md
+      have hd : rebuiltDocs { enabled := true, manDim := md, index := some docs } active [] = docs := by
+        simp only [rebuiltDocs, Option.getD_some, hfil, List.append_nil]
+      have := rebuildVec_enabled { enabled := true, manDim := md, index := some docs } active [] rfl (by rw [hd]; exact hok)
+      rw [hd] at this
+      exact this
     unfold doctorVec
-    simp only [] at hopen ⊢
-    show Option.map _ (rebuildVec _ active []) = _
+    simp only [hopen, ensureVec]
     cases rv
-    · simp only [Bool.false_eq_true, if_false, hopen, if_true, ensureVec]
-      simp only [rebuildVec, buildVecArtifact, Bool.not_true, Bool.false_eq_true, if_false, Option.getD_some, hfil,
-        List.append_nil, hrt, Option.map_some]
-      rfl
-    · simp only [if_true, hopen, ensureVec]
-      simp only [rebuildVec, buildVecArtifact, Bool.not_true, Bool.false_eq_true, if_false, Option.getD_some, hfil,
-        List.append_nil, hrt, Option.map_some]
-      rfl
+    · simp only [Bool.false_eq_true, if_false, if_true]
+      rw [key]; rfl
+    · simp only [if_true]
+      rw [key]; rfl
   · have he' : m.enabled = false := by simpa using he
     have hrv : rv = false := by
       cases rv
       · rfl
       · exact absurd (hen rfl) he
     subst hrv
-    unfold rebuildVec buildVecArtifact at h
-    simp only [he', Bool.not_false, if_true, Option.some.injEq, Prod.mk.injEq] at h
-    obtain ⟨rfl, rfl⟩ := h
-    decide
+    rw [rebuildVec_disabled m active newDocs he'] at h
+    simp only [Option.some.injEq, Prod.mk.injEq] at h
+    obtain ⟨_, rfl⟩ := h
+    unfold doctorVec
+    simp only [openVec, Bool.false_eq_true, if_false]
+    rw [rebuildVec_disabled _ active [] rfl]
+    rfl
 
 /-- the tree under check: the same, if its doctor keeps the committed vectors -/
 theorem C28_vec_doctor_gen (hk : Mv.Gen.C28.DOCTOR_VEC_REBUILD_KEEPS = true)
@@ -274,9 +297,10 @@ theorem C28_lex (W : World) (E' : Filter.Engine) (order order' : List Entry → 
   apply search_sketch_congr W.engine E' (post W r.topK) W.frames r.topK r.hasTextTerms _ _ hE4 hset
   unfold sketchIn
   rw [hemp]
-  split
-  · exact ⟨h2.trans h1.symm, h1.nodup_iff.mpr hnd⟩
-  · trivial
+  by_cases hcond : (!t.entries.isEmpty && r.hasTextTerms && !r.noSketch) = true
+  · simp only [hcond, if_true]
+    exact ⟨h2.trans h1.symm, h1.nodup_iff.mpr hnd⟩
+  · simp only [hcond, Bool.false_eq_true, if_false]
 
 /-- the lexical clause as stated, for every track the code can hold (field widths of the Rust types,
     distinct frame ids, commit-shaped filters), same engine and world on both handles -/
@@ -295,7 +319,12 @@ def gapWorld : World :=
   { engine := Filter.idealEngine [1], docs := fun f => some { frame := f, chunkStart := 0, chunkLen := 10, slices := [(0, 5)] },
     reorder := id, frames := [] }
 
-theorem gap_reload : reloadSketch gapTrack = .ok ⟨.small, [{ gapTrack.entries.head! with frameId := 0 }]⟩ := by decide
+/-- what a handle that opens the file holds: the same sketch, attached to frame 0 -/
+def gapTrackReloaded : Track :=
+  ⟨.small, [{ frameId := 0, simhash := 0, termFilter := 1 :: zeros 15, topTerms := [0, 0], termWeightSum := 0,
+              flags := 7, lengthHint := 0 }]⟩
+
+theorem gap_reload : reloadSketch gapTrack = .ok gapTrackReloaded := by decide
 
 theorem idealEngine_setInvariant (rank : List Nat) : SetInvariant (Filter.idealEngine rank) := by
   intro f f' n hm _
@@ -321,7 +350,7 @@ theorem C28_lex_counterexample : ¬ C28_lex_full := by
 
 /-- the two answers of the witness: frame 1 on the committing handle, nothing after reopen -/
 example : lexIds gapWorld id gapQuery gapTrack { topK := 10, noSketch := false } = [1] ∧
-    lexIds gapWorld id gapQuery ⟨.small, [{ gapTrack.entries.head! with frameId := 0 }]⟩ { topK := 10, noSketch := false } = [] := by
+    lexIds gapWorld id gapQuery gapTrackReloaded { topK := 10, noSketch := false } = [] := by
   decide
 
 /-- non-vacuity of `C28_lex`: a two-entry track whose ids are positions satisfies every premise -/
@@ -334,7 +363,7 @@ def denseTrack : Track :=
 example : denseTrack.InRange ∧ IdsArePositions denseTrack ∧ FilterShaped denseTrack ∧
     (∃ t', reloadSketch denseTrack = .ok t' ∧ t' ≠ denseTrack) ∧
     (denseTrack.entries.filter (passes gapQuery Mv.Gen.C09.SKETCH_HAMMING)).length ≤ maxCandidates 10 := by
-  refine ⟨by decide, by decide, ⟨by decide, by decide⟩, ⟨_, rfl, by decide⟩, by decide⟩
+  refine ⟨by decide, by unfold IdsArePositions; decide, ⟨by decide, by decide⟩, ⟨_, rfl, by decide⟩, by decide⟩
 
 /-! ## searches between a put and its commit -/
 
